@@ -660,7 +660,10 @@ def SUMPRODUCT(
             raise xlerrors.NaExcelError(
                 "Excel Errors are present in the sumproduct items.")
 
-    sumproduct = pd.concat(arrays, axis=1)
+    # Multiply position by position, whatever the shape of the arrays is
+    # (concatenating the arrays themselves multiplies across their columns).
+    sumproduct = pd.concat(
+        [pd.Series(array.flat) for array in arrays], axis=1)
     return sumproduct.prod(axis=1).sum()
 
 
